@@ -174,7 +174,8 @@ PLAIN = [0, 1, -1, 2, 3, 4, 5, 2 ** 31, 2 ** 63, 2 ** 64, 2 ** 70, -2 ** 70, 10 
          0.0, -0.0, 0.5, 1.0, 1.5, 3.0, 1e308, inf, -inf, nan, 100, -100,
          1j, complex(nan, 0), complex(0.5, 0),
          "", "a", "abc", "abcd", "abcdef", "yes", "y", "ye", "n", "no", "é", "1", "0.5", b"", b"a", None,
-         (), (1,), (1, 2), (1, "a"), (1.0, 2), ("a", 1), (0.5, 1), (1, (0.5, True)), (1, 2, 3), (nan, 1),
+         (), (1,), (1, 2), (1, "a"), (1.0, 2), ("a", 1), (0.5, 1), (1, (0.5, True)), (1, 2, 3), (nan, 1), (1, 2, "a"),
+         ((1, "a"), 2),
          [1, 2], [], ["a"], [1, "a"], {}, {1: 2}, {"a": 1}, set(), {1}, {"a"}]
 
 
@@ -666,6 +667,12 @@ def grid():
           ["List", ["Int"], 0, None], ["List", ["Int"], 1, 2], ["List", ["Float"], 0, None], ["List", ["Str"], 0, 3],
           ["Dict", ["Str"], ["Int"]], ["Dict", ["Int"], ["Float"]], ["Set", ["Int"]], ["Set", ["Str"]], ["None"]]
     g += [["InstanceClone", "Foo", True, False], ["InstanceClone", "Foo", False, True], ["InstanceClone", "int", True, False]]
+    g += [["Instance", "Plain", False, "yes"], ["Instance", "Plain", True, "default"], ["Instance", "Plain", True, "yes"],
+          ["Either", [["Instance", "Plain", False, "yes"], ["Int"]]],
+          # two tuple alternatives: the first converts an early member and then fails on a later one
+          ["Either", [["Tuple", [["Float"], ["Int"]]], ["Tuple", [["Int"], ["Str"]]]]],
+          ["Either", [["Tuple", [["Float"], ["Float"], ["Int"]]], ["Tuple", [["Int"], ["Int"], ["Str"]]], ["Str"]]],
+          ["Tuple", [["Either", [["Tuple", [["Float"], ["Int"]]], ["Tuple", [["Int"], ["Str"]]]]], ["Int"]]]]
     g += [["Instance", "Plain", True, None], ["Instance", "Plain", False, None], ["Type", "Plain", True],
           ["Either", [["Instance", "Plain", False, None], ["Int"]]], ["Tuple", [["Instance", "Plain", True, None], ["Int"]]]]
     for an in (True, False):
